@@ -237,6 +237,32 @@ def totalDerivatives (jac : String → String → Option Mat) (sz : String → N
     | _ => directMode fs nVars nRes dresDx dresDy dfunDx dfunDy
   out.map (fun l => l.map (fun (f, m) => (f, splitJac sz vs m)))
 
+/-! ### Exact rescaling of the variables (units)
+
+The same coupled system expressed in the variables `v' = w(v) · v` (`w(v) ≠ 0`, in the harness
+powers of two `2^-45 … 2^45`): every partial Jacobian block `∂f/∂v` is multiplied by `w f / w v`.
+Nothing in `JacobianAssembly` / `CoupledSystem` depends on the absolute size of the entries: the
+model runs the very same `totalDerivatives` on the rescaled blocks (driver field `E=`). -/
+
+/-- `2^n`. -/
+def pow2Nat : Nat → Rat
+  | 0 => 1
+  | n + 1 => 2 * pow2Nat n
+
+/-- `2^e` for an integer exponent. -/
+def pow2 (e : Int) : Rat :=
+  if 0 ≤ e then pow2Nat e.toNat else 1 / pow2Nat (-e).toNat
+
+def scaleMat (c : Rat) (m : Mat) : Mat := m.map (fun row => row.map (fun x => c * x))
+
+/-- The disciplines' partial Jacobians in the rescaled variables. -/
+def scaledJac (w : String → Rat) (jac : String → String → Option Mat) : String → String → Option Mat :=
+  fun f v => (jac f v).map (scaleMat (w f / w v))
+
+/-- The weights given by a table of exponents (`1` for a variable that is not rescaled). -/
+def weightOf (es : List (String × Int)) : String → Rat :=
+  fun n => match es.find? (fun p => p.1 == n) with | some p => pow2 p.2 | none => 1
+
 end GV.C07
 
 /-! ### Couplings needed by a request (`traverse_add_diff_io_mda`, `_compute_diff_ios_and_couplings`) -/
